@@ -61,6 +61,29 @@ func c02Gen(r *rand.Rand, tier string) []spec.Case {
 		c := spec.C02Case{Host: c02Side(r, h, hl), Plugin: c02Side(r, p, pl), Proto: proto, EnvRaw: env}
 		out = append(out, spec.Case{Kind: kind, P: spec.MustJSON(c)})
 	}
+	// two launches through one ClientConfig object; the plugin's sets change in between (upgrade / downgrade)
+	relaunch := func(n int) {
+		for i := 0; i < n; i++ {
+			hm := 1 + r.Intn(31)
+			for len(subsetOf(hm)) < 2 {
+				hm = 1 + r.Intn(31)
+			}
+			h := subsetOf(hm)
+			// both plugin generations intersect the host's set in (usually) different highest versions
+			p1 := []int{h[r.Intn(len(h))]}
+			p2 := []int{h[r.Intn(len(h))]}
+			if r.Intn(3) == 0 {
+				p2 = subsetOf(1 + r.Intn(31))
+			}
+			add("relaunch", h, p1, pick(r, []string{"both", "both", "versioned", "legacy"}), pick(r, []string{"versioned", "legacy", "both"}), "")
+			c := &out[len(out)-1]
+			var cc spec.C02Case
+			jsonUnmarshal(c.P, &cc)
+			side := c02Side(r, p2, pick(r, []string{"versioned", "legacy", "both"}))
+			cc.Plugin2 = &side
+			c.P = spec.MustJSON(cc)
+		}
+	}
 	layouts := []string{"versioned", "legacy", "both"}
 	envFor := func(h []int) string {
 		var ss []string
@@ -89,6 +112,7 @@ func c02Gen(r *rand.Rand, tier string) []spec.Case {
 				add("pair", h, p, pick(r, layouts[1:]), pick(r, layouts[1:]), "")
 			}
 		}
+		relaunch(600)
 		return out
 	}
 	// quick: diagonals, then seeded pairs biased to |H ∩ P| >= 2
@@ -117,6 +141,7 @@ func c02Gen(r *rand.Rand, tier string) []spec.Case {
 		}
 		add("pair", subsetOf(hm), subsetOf(pm), pick(r, layouts), pick(r, layouts), env)
 	}
+	relaunch(50)
 	return out
 }
 
@@ -205,6 +230,51 @@ func c02Judge(c spec.Case, evs []spec.Event, d *Death) CaseResult {
 			if o.StateSoon != "gone" && o.StateSoon != "Z" {
 				viol("plugin-not-terminated", fmt.Sprintf("after the incompatible-version failure the plugin process is in state %s", o.StateSoon))
 			}
+		}
+	}
+	// a second launch through the same ClientConfig object: same rules, against the host's ORIGINAL sets
+	if p.Plugin2 != nil {
+		res.Class += " relaunch"
+		res.Counters["relaunches"]++
+		if o.Second == nil {
+			return CaseResult{Verdict: "inconclusive", Inconcl: "second launch not observed", Class: res.Class}
+		}
+		o2 := *o.Second
+		P2 := p.Plugin2.Set()
+		sort.Ints(P2)
+		best2, common2 := intersectMax(H, P2)
+		viol2 := func(key, msg string) {
+			res.Verdict = "violated"
+			res.Violations = append(res.Violations, Violation{Key: "C02:relaunch:" + key, Msg: fmt.Sprintf("second launch through the same ClientConfig (first launch: plugin %v, negotiated %d, err %q): %s [host=%v (%s) plugin2=%v proto=%v] obs=%+v", P, o.Negotiated, trunc(o.StartErr, 60), msg, H, lay(p.Host), P2, p.Proto, o2)})
+		}
+		res.Sample.(map[string]any)["relaunch_plugin"], res.Sample.(map[string]any)["relaunch_negotiated"], res.Sample.(map[string]any)["relaunch_host_tag"] = P2, o2.Negotiated, o2.HostTag
+		if common2 {
+			wantProto := p.Proto[strconv.Itoa(best2)]
+			switch {
+			case o2.StartErr != "":
+				viol2("start-failed-with-common-version", fmt.Sprintf("sets intersect (highest common %d) but Start failed: %s", best2, o2.StartErr))
+			default:
+				if o2.Negotiated != best2 {
+					viol2("not-highest-common", fmt.Sprintf("NegotiatedVersion()=%d, highest common version is %d", o2.Negotiated, best2))
+				}
+				if o2.CallErr != "" {
+					viol2("call-failed", "a dispensed plugin does not work after negotiation: "+o2.CallErr)
+				} else {
+					if want := fmt.Sprintf("plugin-set v%d %s", best2, wantProto); o2.PluginTag != want {
+						viol2("plugin-set-mismatch", fmt.Sprintf("the plugin serves %q, want %q", o2.PluginTag, want))
+					}
+					if want := fmt.Sprintf("host-set v%d %s", best2, wantProto); o2.HostTag != want {
+						viol2("host-set-mismatch", fmt.Sprintf("the host uses %q, want %q", o2.HostTag, want))
+					}
+				}
+				if o2.Protocol != wantProto {
+					viol2("wire-protocol-mismatch", fmt.Sprintf("Protocol()=%q, the set registered under version %d is %s", o2.Protocol, best2, wantProto))
+				}
+			}
+		} else if o2.StartErr == "" {
+			viol2("started-without-common-version", fmt.Sprintf("sets do not intersect but Start succeeded (negotiated %d)", o2.Negotiated))
+		} else if !strings.Contains(o2.StartErr, "Incompatible API version") {
+			viol2("wrong-error", "sets do not intersect; want the incompatible-version error, got: "+o2.StartErr)
 		}
 	}
 	// raw line for an explicit list
